@@ -2774,3 +2774,125 @@ grid("neighbors", "g_neighbors", _g_neighbors,
      dict(fn=[("pairs", "find_neighbor_pairs"), ("idx", "find_neighbor_pairs_index"), ("num", "calculate_neighbor_numbers")],
           seqs=[("set", "H:seqs_set"), ("tuple", "H:seqs_tuple"), ("arr", "H:seqs_arr_b")],
           neighborhood=[("def", None), ("ham", prs.hamming_neighbors), ("lev", prs.levenshtein_neighbors), ("cb", _CB)]), cb=cb_hamming_nb)
+
+
+# =============================================================================================
+# round-5 lessons: optimum at a bound, dict-valued options of dependencies, Series with a non-default index in the
+# serial search functions
+# =============================================================================================
+@heap
+def ones_many():
+    return np.ones(60)
+
+
+@heap
+def almost_ones():
+    return [1] * 200 + [2] * 3
+
+
+@heap
+def list_bounds():
+    return [1.5, 4.5]
+
+
+@heap
+def dict_colorscheme():
+    return {"C": "gold", "W": "magenta", "A": [0.1, 0.2, 0.3]}
+
+
+@heap
+def seqs_series_b():
+    return pd.Series(["CAAA", "CADA", "CAAK", "CDKD", "CAAA", "CAKK", "CAAAK"], index=[3, 1, 4, 15, 9, 2, 6], name="cdr3b")
+
+
+@heap
+def seqs_series_str():
+    return pd.Series(["CASSLGQAYEQYF", "CASSLGQAYEQF", "CASSLAQAYEQYF", "CAWSVGTDTQYF"], index=list("wxyz"))
+
+
+@op("powerlaw")
+def powerlaw_exact_at_upper_bound(H):
+    return [prs.powerlaw_mle_alpha(H["ones_many"]), prs.powerlaw_mle_alpha(H["almost_ones"], cmin=1, method="exact")]
+
+
+@op("powerlaw")
+def powerlaw_exact_at_lower_bound(H):
+    return prs.powerlaw_mle_alpha([1, 1, 2, 50, 400, 3000, 10000], cmin=1, method="exact")
+
+
+@op("powerlaw")
+def powerlaw_exact_heap_bounds(H):
+    return [prs.powerlaw_mle_alpha(H["almost_ones"], bounds=H["list_bounds"]), prs.powerlaw_mle_alpha(H["counts_arr"], bounds=H["list_bounds"]),
+            prs.powerlaw_mle_alpha(H["counts_arr"], bounds=tuple(H["list_bounds"]))]
+
+
+@op("powerlaw")
+def powerlaw_exact_narrow_then_default(H):
+    return [prs.powerlaw_mle_alpha(H["counts_arr"], bounds=[1.5, 2.0]), prs.powerlaw_mle_alpha(H["counts_arr"])]
+
+
+@op("powerlaw")
+def powerlaw_exact_wide_bounds(H):
+    return prs.powerlaw_mle_alpha(H["almost_ones"], bounds=[1.5, 8.0], options={"xatol": 1e-8})
+
+
+@op("logos", slow=True)
+def seqlogos_dict_colors(H):
+    return pp.seqlogos(H["seqs_eqlen"], color_scheme=H["dict_colorscheme"])
+
+
+@op("logos", slow=True)
+def seqlogos_vj_dict_colors(H):
+    return pp.seqlogos_vj(H["df_vj"], "cdr3", "v", "j", color_scheme={"S": "red", "F": "blue"})
+
+
+@op("logos", slow=True)
+def seqlogos_named_scheme(H):
+    return pp.seqlogos(H["seqs_eqlen"], color_scheme="charge", show_spines=True)
+
+
+@op("logos", slow=True)
+def seqlogos_default_again(H):
+    return pp.seqlogos(H["seqs_eqlen"][::-1])
+
+
+SERIES_POOL = [("ser", "H:seqs_series"), ("ser_b", "H:seqs_series_b"), ("ser_str", "H:seqs_series_str"), ("named", "H:seqs_named_series")]
+
+
+def _g_series_search(H, fn, seqs, mode, seqs2):
+    f = getattr(prs, fn)
+    kw = dict(max_edits=1, custom_distance=mode)
+    if fn in ("symdel", "nearest_neighbor"):
+        kw["seqs2"] = seqs2
+    return sorted(f(seqs, **kw))
+
+
+grid("symdel", "g_series_search", _g_series_search,
+     dict(fn=[("symdel", "symdel"), ("nn", "nearest_neighbor"), ("hash", "hash_based"), ("kdtree", "kdtree")], seqs=SERIES_POOL,
+          mode=[("lev", None), ("ham", "hamming")], seqs2=[("none", None), ("ser", "H:seqs_series_b"), ("list", "H:seqs_list2")]), cap=20)
+
+
+def _g_series_db(H, db, queries, mode):
+    return sorted(H[db].lookup(queries, custom_distance=mode))
+
+
+grid("db", "g_series_db", _g_series_db,
+     dict(db=[("symdel", "symdel_db"), ("lookup", "lookup_db")], queries=SERIES_POOL, mode=[("lev", None), ("ham", "hamming")]), cap=10)
+
+
+def _g_series_misc(H, fn, seqs):
+    if fn == "pdist":
+        return prs.pdist(seqs)
+    if fn == "pcDelta":
+        return prs.pcDelta(seqs, bins=H["bins_arr"])
+    if fn == "hclust":
+        return prs.hierarchical_clustering(seqs)
+    if fn == "pc":
+        return [prs.pc(seqs), prs.stdpc(seqs)]
+    if fn == "neighbors":
+        return [prs.calculate_neighbor_numbers(seqs), sorted(prs.find_neighbor_pairs(seqs))]
+    return prs.downsample(seqs, 3)
+
+
+grid("pdist", "g_series_misc", _g_series_misc,
+     dict(fn=[(x, x) for x in ("pdist", "pcDelta", "hclust", "pc", "neighbors")], seqs=SERIES_POOL), cap=20)
